@@ -278,7 +278,7 @@ Qed.
 Lemma sort_sorted l : NoDup (map fst l) -> sorted_keys (sort_by_key l).
 Proof.
   induction l as [|e r IH]; simpl; intro N; [apply sorted_nil|].
-  inversion N as [|? ? Hn N']; subst. apply insert_sorted; [auto|].
+  inversion N as [|? ? Hn N']; subst. apply insert_sorted; [exact (IH N')|].
   intro H. apply Hn. apply in_map_iff in H. destruct H as [x [Hx Hi]].
   apply sort_in in Hi. apply in_map_iff. eauto.
 Qed.
